@@ -1869,8 +1869,8 @@ class QuadraticForm(Functional):
 
         .. math::
             (<x, Ax> + <b, x> + c)^* (x) =
-            <(x - b), A^-1 (x - b)> - c =
-            <x , A^-1 x> - <x, A^-* b> - <x, A^-1 b> + <b, A^-1 b> - c.
+            <(x - b), A^-1 (x - b)> / 4 - c =
+            (<x , A^-1 x> - <x, A^-* b> - <x, A^-1 b> + <b, A^-1 b>) / 4 - c.
 
         If the quadratic part of the functional is zero it is instead given
         by a translated indicator function on zero, i.e., if
@@ -1898,18 +1898,22 @@ class QuadraticForm(Functional):
             else:
                 return tmp.translated(self.vector)
 
+        # The supremum of <x, y> - <x, Ax> - <b, x> - c is attained at
+        # x = A^-1 (y - b) / 2, which yields <(y - b), A^-1 (y - b)> / 4 - c
         if self.vector is None:
             # Handle trivial case separately
-            return QuadraticForm(operator=self.operator.inverse,
+            return QuadraticForm(operator=0.25 * self.operator.inverse,
                                  constant=-self.constant)
         else:
             # Compute the needed variables
             opinv = self.operator.inverse
-            vector = -opinv.adjoint(self.vector) - opinv(self.vector)
-            constant = self.vector.inner(opinv(self.vector)) - self.constant
+            vector = -0.25 * (opinv.adjoint(self.vector) +
+                              opinv(self.vector))
+            constant = (0.25 * self.vector.inner(opinv(self.vector)) -
+                        self.constant)
 
             # Create new quadratic form
-            return QuadraticForm(operator=opinv,
+            return QuadraticForm(operator=0.25 * opinv,
                                  vector=vector,
                                  constant=constant)
 
